@@ -448,7 +448,7 @@ func (c *Ctx) formatBestEffort(format string, args []Value) string {
 
 type symPlaceholder struct{}
 
-func (symPlaceholder) String() string            { return "?" }
+func (symPlaceholder) String() string             { return "?" }
 func (symPlaceholder) Format(f fmt.State, r rune) { f.Write([]byte("?")) }
 
 func (c *Ctx) toGo(a Value) any {
